@@ -703,6 +703,25 @@ impl<'tcx> Dumper<'tcx> {
             if matches!(kind, DefKind::Closure) {
                 v.push(("parent", s(self.upath(tcx.typeck_root_def_id(did)))));
             }
+            // names of the type parameters in substitution order (parents first), so that inlined generic
+            // bodies can be read under the caller's instantiation
+            {
+                let mut names = vec![];
+                let mut g = tcx.generics_of(if matches!(kind, DefKind::Closure) { tcx.typeck_root_def_id(did) } else { did });
+                let mut chain = vec![g];
+                while let Some(p) = g.parent {
+                    g = tcx.generics_of(p);
+                    chain.push(g);
+                }
+                for g in chain.iter().rev() {
+                    for p in g.own_params.iter() {
+                        if matches!(p.kind, ty::GenericParamDefKind::Type { .. }) {
+                            names.push(s(p.name.to_string()));
+                        }
+                    }
+                }
+                v.push(("type_params", Json::Arr(names)));
+            }
             let body = tcx.optimized_mir(did);
             v.push(("body", self.body_json(body, did)));
             let proms = tcx.promoted_mir(did);
